@@ -145,7 +145,7 @@ def run(tier, seed):
         rounds = base * (10 if suspect else 1)
         for _ in range(rounds):
             spec = []
-            if n in ('_sumifs', '_countifs', '_averageifs') and rng.random() < 0.7:
+            if n in ('_sumifs', '_countifs', '_averageifs') and rng.random() < 0.7 and hasattr(a, '_criterion') and hasattr(b, '_criterion'):
                 # aligned columns and criteria built by the instance's own _criterion: (target, range, criterion, range, criterion, …)
                 h = rng.randint(1, 5)
                 column = lambda pool: [[rng.choice(pool)] for _ in range(h)]
